@@ -118,12 +118,13 @@ def _mutant_worker(a):
         return {"mutant": m["name"], "result": f"generator raised {type(e).__name__}: {e}"}
     failed = []
     bound = getattr(importlib.import_module(module), "STRING_REFUTE_BOUND", 0)
+    refute_ms = getattr(importlib.import_module(module), "MUTANT_REFUTE_MS", 5000)
     for ob in sink.obs:
         if ob.status is None:
             discharge_z3(ob, 1500)
         if ob.status == "unknown" and bound:
             from pyvc.vc import refute_with_length_bound
-            refute_with_length_bound(ob, bound, 5000)
+            refute_with_length_bound(ob, bound, refute_ms)
         if ob.status == REFUTED:
             failed.append(ob.key)
     return {"mutant": m["name"], "failed": failed, "undecided_paths": len(sink.undecided)}
